@@ -357,6 +357,7 @@ class _Printer:
         self.json_style = lay.get("json_style")  # 0 compact, 1 pretty, None: per literal at random
         self.colon_style = lay.get("colon_style", 0)
         self.tight = bool(lay.get("tight_ops", False))
+        self.same_line = bool(lay.get("same_line_after_literal", False))
         self.rng = random.Random(lay.get("seed", 0))
         self.lines = []
 
@@ -459,11 +460,20 @@ class _Printer:
         if s.get("ins"):
             self.emit(w, "In")
             w2 = w + self.w()
-            for p in s["ins"]:
+            skip = False
+            for n, p in enumerate(s["ins"]):
+                if skip:
+                    skip = False
+                    continue
+                nxt = s["ins"][n + 1] if n + 1 < len(s["ins"]) else None
                 if isinstance(p, str):
                     self.emit(w2, p)
                 elif isinstance(p, list):
                     self.emit(w2, path_text(p))
+                elif self.same_line and isinstance(nxt, (str, list)) and self.rng.random() < 0.6:
+                    # the grammar allows the next parameter on the line of a struct literal: `Color {"name": "red"} cr`
+                    self.emit(w2, p["lit"] + " " + json_flat(p["json"]) + " " + (nxt if isinstance(nxt, str) else path_text(nxt)))
+                    skip = True
                 else:
                     self.literal(p, w2)
         if s.get("outs"):
@@ -524,6 +534,7 @@ def random_layout(rng):
         "json_style": rng.choice([0, 1, None]),
         "colon_style": rng.randint(0, 2),
         "tight_ops": rng.random() < 0.3,
+        "same_line_after_literal": rng.random() < 0.3,
         "seed": rng.randrange(1 << 30),
     }
 
